@@ -15,10 +15,19 @@ from harness.tlc import run_tlc, MachineryError
 PID = "C18"
 
 
-def mk_builder(h, w, b):
+def mk_builder(h, w, b, unset=0, initial_blocks=None):
+    """unset: bit mask of the bounds that are left to their defaults (None) when the configured value equals the
+    default (1, h*w, 1, h*w): the same configuration, written the way most callers write it"""
     from cspuz.generator.segmentation import SegmentationBuilder2D
-    return SegmentationBuilder2D(h, w, min_num_blocks=b["minB"], max_num_blocks=b["maxB"], min_block_size=b["minS"],
-                                 max_block_size=b["maxS"])
+    n = h * w
+    kw = {"min_num_blocks": b["minB"], "max_num_blocks": b["maxB"], "min_block_size": b["minS"], "max_block_size": b["maxS"]}
+    dflt = {"min_num_blocks": 1, "max_num_blocks": n, "min_block_size": 1, "max_block_size": n}
+    for bit, k in enumerate(sorted(kw)):
+        if unset >> bit & 1 and kw[k] == dflt[k]:
+            kw[k] = None
+    if initial_blocks is not None:
+        kw["initial_blocks"] = initial_blocks
+    return SegmentationBuilder2D(h, w, **kw)
 
 
 def to_cells(blocks, w):
@@ -31,7 +40,7 @@ def explore_state(args):
     for tid, st, seed in args:
         h, w, b = st["h"], st["w"], st["bnd"]
         random.seed(seed)
-        bld = mk_builder(h, w, b)
+        bld = mk_builder(h, w, b, unset=seed % 16)
         cur = [[(c // w, c % w) for c in blk] for blk in st["blocks"]]
         rng = random.Random(seed)
         rng.shuffle(cur)
@@ -57,7 +66,10 @@ def walk(args):
     for tid, h, w, b, seed, steps in args:
         random.seed(seed)
         rng = random.Random(seed * 31 + 7)
-        bld = mk_builder(h, w, b)
+        if seed % 3 == 2:
+            out += restart_walk(tid, h, w, b, seed, steps, rng)
+            continue
+        bld = mk_builder(h, w, b, unset=seed % 16)
         try:
             cur = bld.initial()
         except Exception as e:  # noqa
@@ -85,6 +97,46 @@ def walk(args):
             recs.append({"t": tid, "h": h, "w": w, "bnd": b, "before": [], "updates": [], "status": "exc", "exc": type(e).__name__})
         out += recs
     return out
+
+
+def restart_walk(tid, h, w, b, seed, steps, rng):
+    """one builder object used the way generate_problem's callers use it: values are dropped as soon as they are
+    replaced, and the walk is restarted from initial() several times (with and without initial_blocks)"""
+    recs = []
+    base = {"t": tid, "h": h, "w": w, "bnd": b, "status": "ok", "exc": ""}
+    try:
+        start = mk_builder(h, w, b).initial()
+    except Exception as e:  # noqa
+        return [dict(base, before=[], updates=[], status="exc", exc="initial:" + type(e).__name__)]
+    bld = mk_builder(h, w, b, unset=seed % 16, initial_blocks=start if seed % 2 else None)
+    try:
+        for _ in range(max(2, steps // 4)):
+            cur = bld.initial()
+            recs.append(dict(base, before=to_cells(cur, w), updates=[]))
+            for k in range(rng.randint(0, 3)):
+                cands = bld.candidates(cur)
+                if not cands:
+                    break
+                snap = copy.deepcopy(cur)
+                nxt = bld.copy_with_update(cur, rng.choice(cands))
+                recs.append(dict(base, before=to_cells(snap, w),
+                                 updates=[{"after": to_cells(nxt, w), "before_unchanged": cur == snap}]))
+                cur = nxt
+                del nxt, snap, cands
+            # every update proposed for the value the walk stopped at; then the value is dropped and the same
+            # builder starts over (nothing may be remembered about a value that no longer exists)
+            snap = copy.deepcopy(cur)
+            rec = dict(base, before=to_cells(cur, w), updates=[])
+            for upd in bld.candidates(cur):
+                after = bld.copy_with_update(cur, upd)
+                rec["updates"].append({"after": to_cells(after, w), "before_unchanged": cur == snap})
+                del after
+            recs.append(rec)
+            del snap, rec
+            del cur
+    except Exception as e:  # noqa
+        recs.append(dict(base, before=[], updates=[], status="exc", exc=type(e).__name__))
+    return recs
 
 
 def run(tier, seed):
